@@ -92,8 +92,12 @@ def get_parser_by_name(docformat: str, obj: Optional['Documentable'] = None) -> 
         or it could be that the docformat name do not match any know L{pydoctor.epydoc.markup} submodules.
     """
     mod = import_module(f'pydoctor.epydoc.markup.{docformat}')
-    # We can safely ignore this mypy warning, since we can be sure the 'get_parser' function exist and is "correct".
-    return mod.get_parser(obj) # type:ignore[no-any-return]
+    try:
+        get_parser = mod.get_parser
+    except AttributeError:
+        # The name matches a submodule that is not a docstring parser (like '_types').
+        raise ImportError(f"'{docformat}' is not a docstring parser")
+    return get_parser(obj) # type:ignore[no-any-return]
 
 def processtypes(parse:ParserFunction) -> ParserFunction:
     """
